@@ -165,12 +165,16 @@ class RungeKuttaIntegrator(TableauIntegrator, abc.ABC):
         self.initial_time = D.ar_numpy.copy(initial_time)
         self.initial_rhs = None
         
-        if self.final_rhs is not None:
+        if self.final_rhs is not None and self.final_time is not None and self.final_time == initial_time \
+                and bool(D.ar_numpy.all(self.final_state == initial_state)):
+            # the slope cached at the end of the previous step is only valid when this step starts there
             self.initial_rhs = self.final_rhs
             if self.is_fsal:
                 self.stage_values[...,0] = self.final_rhs
         else:
             self.initial_rhs = rhs(initial_time, initial_state, **constants)
+        self.final_time = None
+        self.final_state = None
 
         if self.is_implicit and self.__rhs_jac is None:
             self.__rhs_jac = rhs.jac(initial_time, initial_state, **constants)
@@ -224,6 +228,8 @@ class RungeKuttaIntegrator(TableauIntegrator, abc.ABC):
                     )
         
         self._requires_high_precision = False
+        self.final_time = initial_time + self.dTime
+        self.final_state = initial_state + self.dState
         
         return timestep, (self.dTime, self.dState)
         
